@@ -142,7 +142,9 @@ fn evaluate_do_block_expr(
         // Set lambda name if assigning a lambda
         if let Value::Lambda(lambda_ptr) = val {
             let mut borrowed_heap = heap.borrow_mut();
-            if let Some(HeapValue::Lambda(lambda_def)) = borrowed_heap.get_mut(lambda_ptr.index()) {
+            if let Some(HeapValue::Lambda(lambda_def)) = borrowed_heap.get_mut(lambda_ptr.index())
+                && lambda_def.name.is_none()
+            {
                 lambda_def.name = Some(ident.clone());
             }
         }
@@ -407,6 +409,7 @@ pub fn evaluate_ast(
                 let mut borrowed_heap = heap.borrow_mut();
                 if let Some(HeapValue::Lambda(lambda_def)) =
                     borrowed_heap.get_mut(lambda_ptr.index())
+                    && lambda_def.name.is_none()
                 {
                     lambda_def.name = Some(ident.clone());
                 }
